@@ -386,7 +386,10 @@ def worker_main(pool_path, seed):
     texts = json.load(open(pool_path))
     # every text under every mnemonic_case, the (text, option) pairs in an order of this worker's own
     order = [(i, mc) for i in range(len(texts)) for mc in ("upper", "lower", "preserve")]
-    random.Random(seed).shuffle(order)
+    if seed % 100 == 1:
+        order.reverse()                  # (worker 0: the pool as it is; worker 1: backwards; the others: shuffled)
+    elif seed % 100 != 0:
+        random.Random(seed).shuffle(order)
     out = {}
     for i, mc in order:
         try:
@@ -407,7 +410,7 @@ def order_independence(run, tmp):
     json.dump(texts, open(pool, "w"))
     runs = []
     procs = [subprocess.Popen([sys.executable, "-m", "harness.props.c10", "--worker", pool, str(run.seed * 100 + k)], cwd=fw.ROOT,
-                              stdout=subprocess.PIPE, stderr=subprocess.DEVNULL, text=True) for k in range(run.budget(4, 12))]
+                              stdout=subprocess.PIPE, stderr=subprocess.DEVNULL, text=True) for k in range(run.budget(8, 14))]
     for pr in procs:
         out, _ = pr.communicate(timeout=600)
         try:
